@@ -26,8 +26,12 @@ def problem(maximize, dim):
     return FunctionProblem(lambda x: 0.0, bounds=np.array([[-1e9, 1e9]] * dim), maximize=maximize)
 
 
+VALUES = [(3.0, 1.0), (1024.0, 2.0 ** -14)]     # well separated / nearly equal around a large offset
+BASE, GAP = VALUES[0]
+
+
 def fit(rank, maximize):
-    g = 3.0 + rank
+    g = BASE + GAP * rank
     return -g if maximize else g
 
 
@@ -51,6 +55,8 @@ def work(args):
         c = json.loads(line)
         distinct += 1
         row_idx = base_idx + li
+        global BASE, GAP
+        BASE, GAP = VALUES[(row_idx // 3) % 2]
         pts = c["pts"]
         n = len(pts)
         factor = c["fn"] / c["fd"]
